@@ -4,6 +4,7 @@ package main
 // elements removed and a valid IdP signature re-applied (struct-level model `spstruct`).
 
 import (
+	"context"
 	"bytes"
 	"crypto/sha256"
 	"encoding/base64"
@@ -616,6 +617,37 @@ func (e *errReader) Read(p []byte) (int, error) {
 	return 5, nil
 }
 
+// stallReader: a body that delivers a few bytes and then blocks until the exchange is abandoned
+type stallReader struct {
+	ctx context.Context
+	n   int
+}
+
+func (e *stallReader) Read(p []byte) (int, error) {
+	if e.n <= 0 {
+		<-e.ctx.Done()
+		return 0, e.ctx.Err()
+	}
+	e.n--
+	copy(p, "<soap")
+	return 5, nil
+}
+
+// ctxErrReader: a body whose read fails with a context error after a few bytes
+type ctxErrReader struct {
+	n   int
+	err error
+}
+
+func (e *ctxErrReader) Read(p []byte) (int, error) {
+	if e.n <= 0 {
+		return 0, e.err
+	}
+	e.n--
+	copy(p, "<soap")
+	return 5, nil
+}
+
 func (f faultRT) RoundTrip(req *http.Request) (*http.Response, error) {
 	mk := func(code int, body io.Reader) *http.Response {
 		// how the transport framed the body: Content-Length unknown (chunked / close-delimited: -1), absent from a hand-made
@@ -625,6 +657,21 @@ func (f faultRT) RoundTrip(req *http.Request) (*http.Response, error) {
 	switch f.mode {
 	case "conn-error":
 		return nil, errors.New("dial tcp: connection refused")
+	case "deadline-error":
+		// what net/http reports when the request context's deadline passes while the exchange is in flight
+		return nil, context.DeadlineExceeded
+	case "cancel-error":
+		return nil, context.Canceled
+	case "stall-headers":
+		// the resolver never answers: only the client's Timeout (or the request context) ends the exchange
+		<-req.Context().Done()
+		return nil, req.Context().Err()
+	case "stall-body":
+		return mk(200, &stallReader{ctx: req.Context(), n: 2}), nil
+	case "deadline-body":
+		return mk(200, &ctxErrReader{n: 2, err: context.DeadlineExceeded}), nil
+	case "cancel-body":
+		return mk(200, &ctxErrReader{n: 2, err: context.Canceled}), nil
 	case "500":
 		return mk(500, strings.NewReader("oops")), nil
 	case "404-html":
@@ -651,16 +698,33 @@ func (f faultRT) RoundTrip(req *http.Request) (*http.Response, error) {
 func (c *Ctx) c09Resolver() {
 	cfg := baseCfg()
 	setGlobals(cfg, ms(baseTime))
-	modes := []string{"conn-error", "500", "404-html", "truncated", "empty", "garbage", "soap-fault", "wrong-envelope", "no-body", "comment-only", "two-bodies"}
+	modes := []string{"conn-error", "500", "404-html", "truncated", "empty", "garbage", "soap-fault", "wrong-envelope", "no-body", "comment-only", "two-bodies",
+		"deadline-error", "cancel-error", "stall-headers", "stall-body", "deadline-body", "cancel-body"}
 	clens := []int64{0, -1, 3, 1 << 31}
 	for i := 0; i < len(modes)*len(clens); i++ {
 		mode, clen := modes[i%len(modes)], clens[i/len(modes)]
 		s := c.realSP(cfg)
 		s.IDPMetadata.IDPSSODescriptors[0].ArtifactResolutionServices = []saml.Endpoint{{Binding: saml.SOAPBinding, Location: "https://idp.example.com/saml/artifact"}}
 		s.HTTPClient = &http.Client{Transport: faultRT{mode: mode, clen: clen}}
+		var reqCtx context.Context = context.Background()
+		if strings.HasPrefix(mode, "stall-") {
+			// abandoned exchanges: by the client's own Timeout, by a deadline on the incoming request, or by the browser going away
+			switch i / len(modes) {
+			case 0, 3:
+				s.HTTPClient.Timeout = 30 * time.Millisecond
+			case 1:
+				var cancel context.CancelFunc
+				reqCtx, cancel = context.WithTimeout(reqCtx, 30*time.Millisecond)
+				defer cancel()
+			default:
+				var cancel context.CancelFunc
+				reqCtx, cancel = context.WithCancel(reqCtx)
+				time.AfterFunc(30*time.Millisecond, cancel)
+			}
+		}
 		saml.RandReader = &detReader{c: c}
 		res := withTimeout(func() string {
-			req, _ := http.NewRequest("POST", cfg.Acs, nil)
+			req, _ := http.NewRequestWithContext(reqCtx, "POST", cfg.Acs, nil)
 			req.Form = url.Values{"SAMLart": {"AAQAAMFbLinlXaCM+FIxiDwGOLAy2T71gbpO7ZhNzAgEANlB90ECfpNEVLg="}}
 			req.PostForm = req.Form
 			return canonParse(s.ParseResponse(req, []string{"id-req1"}))
